@@ -245,6 +245,89 @@ def run_case(encrypted, caller, owners, refs, orphans, op, delays=None):
     return check_after(U, caller, op, before, snaps, be, raised)
 
 
+# --------------------------------------------------------------------------- destructive commands with one failing backend call (C06_d)
+FAULT_OPS = [('download', 0), ('download', 1), ('download', 2), ('delete', 0), ('delete', 1), ('exists', 0)]
+FAULT_EXCS = [None, lambda: TimeoutError('injected timeout'), lambda: ConnectionResetError(104, 'injected reset'), lambda: OSError(5, 'injected I/O error')]
+
+
+def fault_case(encrypted, caller, owners, refs, orphans, op, fop, exc_i):
+    """One backend call of the command fails for good (a backend error, a timeout, a reset, EIO). The command may raise; but
+    whatever it reports, every snapshot object still in the store keeps all the chunks it references (of every user), nothing
+    is created or overwritten, and nothing outside the caller's own chunk objects and named snapshots is removed."""
+    U = users(encrypted)
+    rt.determinism(7)
+    objs, snaps = build_state(U, owners, refs, orphans)
+    be = rt.MemBackend(objs, fail_op=fop, fail_exc=FAULT_EXCS[exc_i])
+    repo = fresh_repo(U, caller, be)
+    before = dict(objs)
+    raised = None
+    try:
+        if op == 'clean':
+            _run(repo.clean())
+        else:
+            idx = {'del0': [0], 'del1': [1], 'del01': [0, 1]}[op]
+            _run(repo.delete_snapshots([snaps[i]['name'] for i in idx if i < len(snaps)], confirm=False))
+    except Exception as e:
+        raised = e
+    hit = be._opn[fop[0]] > fop[1]
+    if not hit:
+        # the failing call was never reached: the ordinary oracle applies
+        ok, msg = check_after(U, caller, op, before, snaps, be, raised)
+        return ok, msg, False
+    after = be.objs
+    what = f"{op} by {caller} with {fop[0]} #{fop[1]} failing ({type(raised).__name__ if raised else 'command reported success'})"
+    if set(after) - set(before):
+        return False, f'{what}: objects created', True
+    for k in after:
+        if after[k] != before[k]:
+            return False, f'{what}: object {k} overwritten', True
+    for s in snaps:
+        if s['loc'] in after:
+            for j in s['refs']:
+                if U.chunk_loc(s['owner'], j) not in after:
+                    return False, f"{what}: snapshot of {s['owner']} is still in the store but its chunk {j} was removed", True
+    deleted = set(before) - set(after)
+    own_chunk_locs = {U.chunk_loc(caller, j) for j in range(4)}
+    named = set()
+    if op != 'clean':
+        named = {snaps[i]['loc'] for i in {'del0': [0], 'del1': [1], 'del01': [0, 1]}[op] if i < len(snaps)}
+    for k in deleted:
+        if k.startswith('data/'):
+            if k not in own_chunk_locs:
+                return False, f'{what}: foreign chunk object deleted', True
+        elif k not in named:
+            return False, f'{what}: {k} deleted', True
+    for s in snaps:
+        if s['loc'] in deleted and U.encrypted and s['owner'] != caller:
+            return False, f"{what}: snapshot of {s['owner']} deleted by {caller}", True
+    if raised is None and fop[0] != 'exists':
+        return False, f'{what}: a backend call failed for good but the command reported success', True
+    return True, '', True
+
+
+def g_fault(k: int) -> bool:
+    """
+    pre: shard(2 * 9 * 16 * 3 * 6 * 4)[0] <= k < shard(2 * 9 * 16 * 3 * 6 * 4)[1]
+    post: _
+    """
+    ci, oc, bits, opi, fi, ei = digits(k, [2, 9, 16, 3, 6, 4])
+    with NoTracing():
+        owners = [OWNERS[oc % 3], OWNERS[oc // 3]]
+        refs = _refs_from_bits(bits, 2, 2)
+        op = ['clean', 'del0', 'del01'][opi]
+        caller = 'AB'[ci]
+        # the caller only names snapshots it owns (refusals are the subject of G.e)
+        if op != 'clean':
+            owners[0] = caller
+            if op == 'del01':
+                owners[1] = caller
+        ok, msg, hit = fault_case(True, caller, owners, refs, [(0, 3)], op, FAULT_OPS[fi], ei)
+        tick('g_fault', [caller, owners, refs, op, fi, ei, hit])
+        if not ok:
+            _say(msg)
+        return ok
+
+
 def _refs_from_bits(bits, nsnap, ndig):
     return [[j for j in range(ndig) if (bits >> (i * ndig + j)) & 1] for i in range(nsnap)]
 
